@@ -341,7 +341,10 @@ def init_sc3(mode):
         if mode == 'rt':
             # many check processes may run side by side: widen the range of
             # UDP ports the library may bind (default is 10 from 57120)
-            sc3.LIB_PORT_RANGE = 4000
+            # and start far from the default 57120 so that the repository's
+            # own tests (which open lang_port + 10) are not disturbed
+            sc3.LIB_PORT = 20000 + (os.getpid() * 13) % 30000
+            sc3.LIB_PORT_RANGE = 400
         sc3.init(mode, verbosity='CRITICAL', blocking=True)
         logging.getLogger().setLevel(logging.CRITICAL + 10)
     return sc3
